@@ -978,3 +978,56 @@ def rule_state_reset_siblings(ctx, files=("hdf/src/crle.c", "hdf/src/cskphuff.c"
                     ctx.holds("STATEHIST", key, f.where(l), "the transition to %s wipes %s like its sibling(s)" % (c, ", ".join(sorted(s)) or "nothing"), nontrivial=True)
     ctx.floor("STATEHIST", 2, n, "(transitions of a coder state machine into a state entered from several places)")
     return n
+
+
+def rule_refill_moves_block_offset(ctx):
+    """REFILLADV (C05): the bit-I/O layer keeps a window of the element in a buffer: `block_offset` is where the window starts
+    in the element, `buf_read` how many bytes of it are valid.  Each time the window is refilled (`buf_read = n` after an
+    Hread) the same block of statements says where the new window starts - it adds the old `buf_read` to `block_offset`,
+    assigns it outright, or has just used it to position the read.  A refill that leaves `block_offset` alone makes Hbitseek
+    believe the previous window is still in the buffer, and a later seek returns bits of the wrong block."""
+    from .codec import ast_walk
+    prog = ctx.prog
+    n = 0
+    for f in prog.lib_funcs():
+        ast = f.raw.get("ast")
+        if not ast or not f.rel.endswith("hdf/src/hbitio.c"):
+            continue
+        sites = []
+
+        def vis(nd, st):
+            if nd[0] == "block":
+                fills = []
+                touches = False
+                for k in nd[1]:
+                    es = []
+                    if k[0] in ("s", "if") and k[1] is not None:
+                        es.append(k[1])
+                    for e in es:
+                        for x in walk(e, True):
+                            if x[0] == "asg" and x[1] == "=" and kind(strip(x[2])) == "mem" and strip(x[2])[2] == "buf_read" and not is_int(x[3]):
+                                fills.append(k)
+                            if x[0] == "mem" and x[2] == "block_offset":
+                                touches = True
+                if fills and not touches:
+                    # the initial fill: the start of the window is assigned outright in an enclosing block
+                    for a in st:
+                        if a[0] == "block":
+                            for k2 in a[1]:
+                                if k2[0] == "s" and k2[1] is not None and any(x[0] == "asg" and x[1] == "=" and kind(strip(x[2])) == "mem" and strip(x[2])[2] == "block_offset" for x in walk(k2[1], True)):
+                                    touches = True
+                for k in fills:
+                    sites.append((k, touches))
+            return True
+
+        ast_walk(ast, vis)
+        for i, (k, touches) in enumerate(sites, 1):
+            n += 1
+            key = "REFILLADV:%s#%d" % (f.name, i)
+            line = k[-3] if isinstance(k[-3], int) else f.line
+            if touches:
+                ctx.holds("REFILLADV", key, f.where(line), "the block that refills the bit buffer also settles block_offset", nontrivial=True)
+            else:
+                ctx.violated("REFILLADV", key, f.where(line), "the bit buffer is refilled (`buf_read = ..`) in a block that never mentions block_offset: the window's recorded start stays that of the previous block, and a later Hbitseek inside that range reads the wrong bytes")
+    ctx.floor("REFILLADV", 5, n, "(refills of the bit buffer)")
+    return n
